@@ -24,6 +24,7 @@ import (
 	"errors"
 	"fmt"
 	"sort"
+	"strconv"
 	"strings"
 	"sync"
 	"sync/atomic"
@@ -513,7 +514,7 @@ func (r *c10run) observeRunning() string {
 	return bit(r.svc.Running())
 }
 
-func (r *c10run) runSched(choices []int, drainBound int) string {
+func (r *c10run) runSched(choices []string, drainBound int) string {
 	stepf := func(label string, en []string) bool {
 		w := r.do(label)
 		if r.failed != "" {
@@ -528,7 +529,21 @@ func (r *c10run) runSched(choices []int, drainBound int) string {
 		if len(en) == 0 {
 			break
 		}
-		if !stepf(en[c%len(en)], en) {
+		// a choice is an index into the enabled list, or the name of an actor (skipped when not enabled)
+		label := ""
+		if n, err := strconv.Atoi(c); err == nil {
+			label = en[n%len(en)]
+		} else {
+			for _, e := range en {
+				if e == c {
+					label = c
+				}
+			}
+			if label == "" {
+				continue
+			}
+		}
+		if !stepf(label, en) {
 			return strings.Join(r.lines, " ; ") + " ; " + r.failed
 		}
 	}
@@ -562,12 +577,20 @@ func (r *c10run) runSched(choices []int, drainBound int) string {
 }
 
 func c10sched(s *Sexp) string {
-	programs, choices := parsePrograms(s)
+	var programs [][]*Sexp
+	var choices []string
 	var cfg *Sexp
 	np := 0
 	for _, x := range s.Args() {
-		if x.Head() == "cfg" {
+		switch x.Head() {
+		case "cfg":
 			cfg = x
+		case "thread":
+			programs = append(programs, x.Args())
+		case "choices":
+			for _, c := range x.Args() {
+				choices = append(choices, c.Atom)
+			}
 		}
 	}
 	for _, p := range programs {
@@ -713,7 +736,12 @@ func c10matrix(s *Sexp) string {
 // ---------------------------------------------------------------------------------------------
 
 func c10free(s *Sexp) string {
-	programs, _ := parsePrograms(s)
+	var programs [][]*Sexp
+	for _, x := range s.Args() {
+		if x.Head() == "thread" {
+			programs = append(programs, x.Args())
+		}
+	}
 	var cfg *Sexp
 	np := 1
 	for _, x := range s.Args() {
